@@ -57,7 +57,8 @@ impl<'a> Locals<'a> {
 
     /// Get the number of locals for a class, or None if the class is not configured
     pub fn class_locals(&self, class: Class) -> Option<usize> {
-        self.classes[class.0 as usize]
+        self.classes
+            .get(class.0 as usize)?
             .as_ref()
             .map(|local| local.len())
     }
